@@ -234,6 +234,16 @@ class Repo:
 
     def lookup(self, qualname: str):
         """'pkg.mod.func' | 'pkg.mod.Class.method' -> (module, classinfo|None, FunctionDef)."""
+        if ".<locals>." in qualname:
+            # a function defined inside another one: 'pkg.mod.Class.method.<locals>.inner'
+            outer, inner = qualname.split(".<locals>.", 1)
+            m, ci, fn = self.lookup(outer)
+            if fn is None or "." in inner:
+                return None, None, None
+            found = [n for n in ast.walk(fn) if isinstance(n, (ast.FunctionDef, ast.AsyncFunctionDef)) and n.name == inner and n is not fn]
+            if len(found) != 1:
+                return None, None, None
+            return m, None, found[0]
         parts = qualname.split(".")
         for cut in range(len(parts) - 1, 0, -1):
             m = self.module(".".join(parts[:cut]))
